@@ -197,6 +197,7 @@ type Profile struct {
 	Crash        bool
 	Relist       bool
 	Reload       bool
+	Restore      bool // reloads may bring back the range dropped last (C03: lost records are adopted again)
 	AdminRelease bool
 	AdminList    bool
 	PoolAPI      bool
@@ -238,6 +239,7 @@ func profileFor(prop string) Profile {
 		p.Ops = [2]int{15, 50}
 		p.Stall = true
 		p.Reload, p.Crash = true, true // histories include restarts and reloads: the tables are rebuilt from the store
+		p.Restore = true
 	case "C07":
 		p.PoolAPI, p.Pools = true, true
 		p.Kinds = []string{"dp", "dp", "dp", "sts"}
@@ -336,6 +338,9 @@ type World struct {
 	staleFips                      []*FipInfo          // entries of earlier listings an administrator may still act on
 	poolBodies                     map[string][][]byte // pool name -> bodies of earlier create-or-update requests
 	aheadNum                       int                 // of 8: how often kube-scheduler works on a pod galaxy-ipam's informer has not seen yet (per-run swarm parameter)
+	everDropped                    map[string]bool
+	rebuilds                       []int // steps at which galaxy-ipam listed the stored FloatingIPs (tables rebuilt from the store)
+	memVer                         int // configuration version the tables were last known to hold (raised when a reload or a start completes)
 	inForceLB                      int                 // oldest configuration version that can still be in force (C09)
 	plan                           *faultPlan
 	planFired                      bool
@@ -653,9 +658,45 @@ func (w *World) configured(ip string) bool {
 	return false
 }
 
+// inNewestConf: the IP is configured and was never taken out of the configuration since it first appeared (an IP
+// that was dropped and brought back is out of scope for the clauses that use this: its record was legitimately lost).
 func (w *World) inNewestConf(ip string) bool {
 	_, ok := w.confVers[len(w.confVers)-1][ip]
+	return ok && !w.everDropped[ip]
+}
+
+// inNewestConfRaw is plain membership in the newest published configuration.
+func (w *World) inNewestConfRaw(ip string) bool {
+	_, ok := w.confVers[len(w.confVers)-1][ip]
 	return ok
+}
+
+// publishConf appends a configuration version and notes which IPs it takes out.
+func (w *World) publishConf(cs ConfSet) {
+	if n := len(w.confVers); n > 0 {
+		for ip := range w.confVers[n-1] {
+			if _, ok := cs[ip]; !ok {
+				if w.everDropped == nil {
+					w.everDropped = map[string]bool{}
+				}
+				w.everDropped[ip] = true
+			}
+		}
+	}
+	w.confVers = append(w.confVers, cs)
+}
+
+// confSince: the IP is in every configuration version from lb on (lb: the version in force when an allocation was made).
+func (w *World) confSince(ip string, lb int) bool {
+	if lb < 0 {
+		lb = 0
+	}
+	for i := lb; i < len(w.confVers); i++ {
+		if _, ok := w.confVers[i][ip]; !ok {
+			return false
+		}
+	}
+	return true
 }
 
 // ---------------------------------------------------------------------------------------------------------
@@ -678,6 +719,10 @@ func (w *World) Handle(t *core.Task, r *core.Req) core.Resp {
 		}
 		resp := w.K.Handle(t, r)
 		w.slowReply(t)
+		if r.Op == "api.list" && len(r.A) > 0 && r.A[0] == "floatingips" && resp.Code == 0 && w.galaxyTask(t) {
+			// only a (re)build of the tables lists the stored objects: a start or a reload
+			w.rebuilds = append(w.rebuilds, w.S.Steps)
+		}
 		if r.Op == "api.get" && len(r.A) > 0 && r.A[0] == "configmaps" && resp.Code == 0 && t != nil {
 			// remember which configuration version this task read
 			if tm, ok := t.Data.(*taskMeta); ok && tm != nil {
@@ -754,7 +799,7 @@ func (w *World) handleCloud(t *core.Task, r *core.Req) core.Resp {
 		w.cloudLog = append(w.cloudLog, fmt.Sprintf("%d assign %s %s", w.S.Steps, ip, node))
 	} else {
 		w.S.Stat("cloud.unassign")
-		w.oracleOnCloudUnassign(node, ip)
+		w.oracleOnCloudUnassign(t, node, ip)
 		delete(w.cloud, ip)
 		w.cloudLog = append(w.cloudLog, fmt.Sprintf("%d unassign %s %s", w.S.Steps, ip, node))
 	}
@@ -797,7 +842,13 @@ func (w *World) handleReport(t *core.Task, r *core.Req) core.Resp {
 		w.http = append(w.http, hr)
 		w.onHTTP(&hr)
 		return core.Resp{}
-	case "w.resynced", "w.reloaded", "w.queuelen", "w.collected":
+	case "w.reloaded":
+		// a reload that completed without error leaves the tables at the version it read (or at one with the same text)
+		if tm, ok := t.Data.(*taskMeta); ok && tm != nil && len(r.A) == 2 && r.A[0] == "true" && r.A[1] == "" && tm.confRead > w.memVer {
+			w.memVer = tm.confRead
+		}
+		return core.Resp{}
+	case "w.resynced", "w.queuelen", "w.collected":
 		return core.Resp{}
 	case "w.crd-informer-synced":
 		w.S.Stat("crd.informer-started-and-synced")
